@@ -213,6 +213,8 @@ SEQS = {
                           ("failed", "run", ("a",)), ("completed", "run", ("b", 1))],
     "overlap-3": [("total", "run", ("x",), 2), ("total", "run", ("y",), 1), ("running", "run", ("x",)), ("running", "run", ("y",)), ("running", "run", ("x",)),
                   ("completed", "run", ("y",)), ("completed", "run", ("x",)), ("completed", "run", ("x",))],
+    # more failures than the observer retains exceptions for (the harness lowers the cap from 128 to 2)
+    "failures-beyond-cap": [("total", "run", ("a",), 5)] + [ev for _ in range(5) for ev in (("running", "run", ("a",)), ("failed", "run", ("a",)))],
     "nothing": [],
     "unfinished": [("total", "run", ("a",), 2), ("running", "run", ("a",)), ("completed", "run", ("a",))],
 }
@@ -255,6 +257,8 @@ class UpdHarness(e1.Harness):
                 e1.hpoint("output")
             obs = HtmlProgressObserver(sink, initial_update_delay=1, min_update_interval=1, max_update_interval=5)
         ctx["obs"] = obs
+        if self.cfg["seq"] == "failures-beyond-cap":
+            obs._max_exception_count = 2
         running = 0
         steps = [Fraction(1, 3), Fraction(1, 2), Fraction(2), Fraction(1, 7)]
         try:
